@@ -820,7 +820,22 @@ def exec_layout(case):
                 faulted.add(servers[srv].name)
         # ground truth before the reads
         valid_where, pieces = sharecheck.good_shares_on_disk(servers, si, capd)
-        good_unfaulted = set(sh for sh, srvs in valid_where.items() if any(s not in faulted for s in srvs))
+        # C03 speaks of *intact* shares: what the server serves for the share is byte-identical to what the uploader
+        # stored (container header / lease area may differ) and validates.  A modified share that an independent
+        # validator would still accept (e.g. a flipped, unneeded entry of the share hash chain) is one of the "other"
+        # shares: the reader may reject it.
+        intact_where = {}
+        for s in servers:
+            for shnum, raw in s.shares_of(si).items():
+                try:
+                    if (shnum in originals and s.name in valid_where.get(shnum, ())
+                            and sharecheck.split_container(raw)[1] == sharecheck.split_container(originals[shnum])[1]):
+                        intact_where.setdefault(shnum, set()).add(s.name)
+                except sharecheck.Bad:
+                    pass
+        good_unfaulted = set(sh for sh, srvs in intact_where.items() if any(s not in faulted for s in srvs))
+        if set(valid_where) - set(intact_where):
+            probe("modified-share-still-validates-independently")
         good_anywhere = set(valid_where)
         # conservative over-estimate of "could contribute to this read": the share file exists and the
         # blocks of the wanted segments sit, intact, where the original share had them
@@ -904,7 +919,7 @@ def exec_layout(case):
                     if touches_bad:
                         continue
                     if len(good_unfaulted) >= k and wave == "first":
-                        bad("C03", "unavailable", "read(%r,%r) failed with %s although %d distinct valid shares (k=%d) sit on servers that received no fault (muts=%r faults=%r placement=%r)" % (
+                        bad("C03", "unavailable", "read(%r,%r) failed with %s although %d distinct intact shares (k=%d) sit on servers that received no fault (muts=%r faults=%r placement=%r)" % (
                             off, sz, err_name(r), len(good_unfaulted), k, case.get("muts"), case.get("faults"), cfg["placement"]),
                             sig="C03.unavailable." + err_name(r))
                     segs = set(range(off // segk_, (off + max(1, len(want)) - 1) // segk_ + 1))
